@@ -169,6 +169,11 @@ func (d *Dumper) val(v reflect.Value) {
 	case reflect.Struct:
 		t := v.Type()
 		tn := t.Name()
+		if t == instType || t == worldType {
+			// the harness's own recorder objects (reachable through registered instance VALUES) are not godi state
+			d.b.WriteString(tn + "{harness}")
+			return
+		}
 		if d.SkipType[tn] {
 			d.b.WriteString(tn + "{…}")
 			return
